@@ -438,6 +438,38 @@ Section CountPushdown.
         split; [intros [_ ->]; f_equal; lia|intros E; inversion E; split; [right; assumption|lia]].
       + split; [intros [[H|H] _]; contradiction|discriminate].
   Qed.
+  (* any number of partitions *)
+  Lemma afold_vals_rcount X k :
+    afold (vals k (rcount X)) =
+    if in_dec labels_dec k (map key X) then Some (conv (count_occ labels_dec (map key X) k)) else None.
+  Proof. rewrite vals_rcount. destruct (in_dec labels_dec k (map key X)); [rewrite (afold_cons Z.add); reflexivity|reflexivity]. Qed.
+
+  Lemma value_count_list (Xs : list (list (labels * Z))) k :
+    afold (vals k (concat (map rcount Xs))) =
+    if in_dec labels_dec k (map key (concat Xs)) then Some (conv (count_occ labels_dec (map key (concat Xs)) k)) else None.
+  Proof.
+    induction Xs as [|X Xs IH]; [reflexivity|]. cbn [map concat].
+    rewrite (afold_vals_app Z.add zassoc without grouping), afold_vals_rcount, IH.
+    rewrite !map_app, count_occ_app, conv_add.
+    destruct (in_dec labels_dec k (map key X)) as [HA|HA], (in_dec labels_dec k (map key (concat Xs))) as [HB|HB];
+      destruct (in_dec labels_dec k (map key X ++ map key (concat Xs))) as [HC|HC]; simpl; try reflexivity;
+      try (exfalso; apply HC; apply in_or_app; tauto).
+    all: try (rewrite (proj1 (count_occ_not_In labels_dec (map key (concat Xs)) k) HB), conv_0; f_equal; lia).
+    all: try (rewrite (proj1 (count_occ_not_In labels_dec (map key X) k) HA), conv_0; f_equal; lia).
+    all: try (exfalso; apply in_app_or in HC; tauto).
+  Qed.
+
+  Theorem count_distributes_list (Xs : list (list (labels * Z))) :
+    Permutation (rcount (concat Xs)) (rsum (concat (map rcount Xs))).
+  Proof.
+    apply NoDup_Permutation.
+    - unfold rcount. apply (NoDup_map_inv fst). rewrite map_map. simpl. rewrite map_id. apply NoDup_nodup.
+    - apply (NoDup_map_inv fst). apply ref_agg_keys_nodup.
+    - intros [k v]. rewrite rcount_in, (ragg_in' Z.add without grouping), value_count_list.
+      destruct (in_dec labels_dec k (map key (concat Xs))) as [H|H].
+      + split; [intros [_ ->]; reflexivity|intros E; inversion E; split; [assumption|reflexivity]].
+      + split; [intros [H' _]; contradiction|discriminate].
+  Qed.
 End CountPushdown.
 
 Section DistributedCount.
